@@ -15,6 +15,7 @@
 
 #include <limits>
 #include <memory>
+#include <optional>
 #include <type_traits>
 #include <utility>
 
@@ -85,7 +86,7 @@ template <std::size_t N> void resize_all(unsigned part, unsigned nparts)
       continue;
     if (vrt::out_of_time())
       return;
-    igrid<N> const old_grid = make_grid<N>(old_sz);
+    std::optional<igrid<N>> holder; // built inside the first announced case of this old size
     for (A3 const &new_sz : sizes)
     {
       std::vector<A3> const ref = ref_range(N, A3{0, 0, 0}, new_sz);
@@ -99,6 +100,9 @@ template <std::size_t N> void resize_all(unsigned part, unsigned nparts)
       {
         vrt::nontrivial(nt);
         vrt::maybe_sample();
+        if (!holder)
+          holder.emplace(make_grid<N>(old_sz));
+        igrid<N> const &old_grid = *holder;
         std::size_t calls = 0;
         bool init_inside = false;
         igrid<N> const r = g::resize(old_grid, mkdim<S, N>(new_sz), [&](typename igrid<N>::pos const &p) {
@@ -186,11 +190,14 @@ template <std::size_t N> void apply2_all(unsigned part, unsigned nparts)
       continue;
     if (vrt::out_of_time())
       return;
-    igrid<N> const ga = make_grid<N>(sa);
+    std::optional<igrid<N>> holder; // built inside the first announced case of this size1
     for (A3 const &sb : sizes)
     {
       if (!vrt::begin_text(fn.c_str(), fn + " size1=" + show(N, sa) + " size2=" + show(N, sb)))
         continue;
+      if (!holder)
+        holder.emplace(make_grid<N>(sa));
+      igrid<N> const &ga = *holder;
       // non-trivial: a non-empty result, or different sizes with the same number of cells
       vrt::nontrivial((sa == sb && product(N, sa) >= 1) || (sa != sb && product(N, sa) == product(N, sb)));
       vrt::maybe_sample();
@@ -213,6 +220,18 @@ template <std::size_t N> void apply2_all(unsigned part, unsigned nparts)
                   "different sizes gave a grid with %zu cells", static_cast<std::size_t>(r.end() - r.begin()));
         VRT_CHECK(calls == 0, fn + ":calls_on_mismatch", "function called %zu times although sizes differ", calls);
       }
+      // rvalue first grid with move-only cells
+      lgrid<N> const rm = g::apply(
+          [](std::unique_ptr<int> &&a, long const b) -> long {
+            std::unique_ptr<int> const taken(std::move(a));
+            return *taken + b;
+          },
+          make_ugrid<N>(sa), gb);
+      if (sa == sb)
+        check_cells<N>(rm, sa, fn + ":rvalue", [](long v) { return v; },
+                       [](A3 const &p) -> long { return 100001L * enc(p); });
+      else
+        VRT_CHECK(rm.empty() && rm.begin() == rm.end(), fn + ":rvalue:not_empty", "different sizes gave a non-empty grid");
     }
   }
 }
@@ -225,15 +244,15 @@ template <std::size_t N> void apply3_all(ll max_ext)
   {
     if (vrt::out_of_time())
       return;
-    igrid<N> const ga = make_grid<N>(sa);
     for (A3 const &sb : sizes)
     {
-      igrid<N> const gb = make_grid<N>(sb, 400);
       for (A3 const &sc : sizes)
       {
         if (!vrt::begin_text(fn.c_str(),
                              fn + " size1=" + show(N, sa) + " size2=" + show(N, sb) + " size3=" + show(N, sc)))
           continue;
+        igrid<N> const ga = make_grid<N>(sa);
+        igrid<N> const gb = make_grid<N>(sb, 400);
         bool const same = sa == sb && sa == sc;
         // non-trivial: non-empty result, or exactly one grid deviates
         vrt::nontrivial((same && product(N, sa) >= 1) || (!same && (sa == sb || sa == sc || sb == sc)));
